@@ -219,6 +219,8 @@ impl MixWorld {
 			// a route needs the id of the send track, which only a live handle provides
 			if let Some(h) = self.sends[*s].handle.as_ref() {
 				tb = tb.with_send(h, *db);
+				// a route is identified by its send track: declaring it again replaces the earlier declaration
+				routes.retain(|(rs, _): &(usize, ParamModel<Decibels>)| rs != s);
 				routes.push((*s, ParamModel::new(Decibels(*db))));
 			}
 		}
